@@ -1,8 +1,12 @@
-(* Gen/GenC03x.v - two units of C03's own, outside the sound fragment of Proofs/SetSound.v: a
-   struct held BY VALUE as map entry that has a nested struct field.  Below that field the
-   repaired emitter still assigns to a copy of the entry that is never stored back (the open
-   finding nested_in_map_entry; theorem C03_refuted_nested_in_map_entry).  The stream runs the
-   real generated inspectors of these types on the same case shapes as the main stream. *)
+(* Gen/GenC03x.v - three units of C03's own: a struct held BY VALUE as map entry that has nested
+   fields.  Until fix 2f8b339 the emitter assigned below such a field to a copy of the entry that
+   was never stored back (finding nested_in_map_entry, fixed; theorem
+   C03_refuted_nested_in_map_entry is about the old emitter); the repaired emitter keeps the
+   store-back of the entry pending for all the code below it, and the units are inside the sound
+   fragment of Proofs/SetSound.v now.  The stream runs the real generated inspectors of these
+   types on the same case shapes as the main stream and demands the stored value: below a nested
+   struct (N0, N1), and below a nested struct, a nil or set pointer, a slice, and maps - nil, empty
+   or populated, with scalar values and with further structs held by value - of an entry (N2). *)
 From Coq Require Import List Bool String Ascii ZArith Arith.
 From Verif Require Import Util Ints Node GoSrc Value Shapes GenUnits GenC03.
 Import ListNotations.
@@ -11,8 +15,13 @@ Local Open Scope string_scope.
 Definition pt : ty := TNamed "Pt" (TStruct [("A", t_int32); ("S", t_string)]).
 Definition rec_ : ty := TNamed "Rec" (TStruct [("N", pt); ("C", t_int32)]).
 
+Definition lf : ty := TNamed "Lf" (TStruct [("A", t_int32)]).
+Definition rec2 : ty :=
+  TNamed "Rec2" (TStruct [("N", pt); ("P", TPtr pt); ("L", TSlice pt); ("M", TMap t_int32 lf);
+                          ("S", TMap t_string t_int32); ("C", t_int32)]).
+
 Definition xunits : list (string * ty) :=
-  [("N0", TMap t_string rec_); ("N1", TStruct [("F", TMap t_int32 rec_)])].
+  [("N0", TMap t_string rec_); ("N1", TStruct [("F", TMap t_int32 rec_)]); ("N2", TMap t_int32 rec2)].
 
 (* the unit lines the runner of this stream links *)
 Definition emit_cases (tier : Z) (seed : Z) : list string := map GenUnits.case_line xunits.
